@@ -15,6 +15,7 @@ from ..interp import VApp, OPTION, lin_of
 from ..spec import sentence as spec
 from .fsm import get_fsm
 from .c05 import canon_cell, stub_decisions
+from .common import check_derived_impls
 
 
 def table_of(m, leaf, width):
@@ -122,5 +123,6 @@ def run(ctx, chk):
             elif not offs and not ons:
                 pass      # cells that do not mention the decode flag at all (Incomplete, errors)
         chk.ob(npair >= 2, "C07/decode-pairs/%d" % npair, "decode on/off cell pairs compared [%s]: %d" % (cfg, npair))
+    check_derived_impls(ctx, chk, "C07", cfgs, lambda short, full: full.startswith("sentence::"), 6, "that the reported sentence fields are the transmitted ones")
     chk.cov["configs"] = cfgs
     chk.cov["trusted_base"] = ["rustc MIR", "nom take / digit1 / take_until contracts", "u8::from_str", "tables in spec/sentence.py"]
